@@ -59,7 +59,7 @@ class RangeReader:
         self.lambdas = {g.fid: g for g in self.facts.lambdas_of(f)}
         self.rollback = set()
         for g in self.lambdas.values():
-            if any(n['k'] == 'CXXMemberCallExpr' and n.get('cn') == 'erase' for n in g.all_nodes()):
+            if any(n['k'] == 'CXXMemberCallExpr' and n.get('cn') in ('erase', 'resize', 'pop_back', 'clear') for n in g.all_nodes()):
                 self.rollback.add(g.fid)
         self.visits = 0
         self.out_params = {p['id'] for p in f.params if p['type'].replace(' ', '') == 'void*&'}
